@@ -18,10 +18,10 @@ while [ $k -lt $jobs ]; do
     [ -d "$wt" ] || { echo "worker $k: no worktree"; exit 1; }
     awk -v k=$k -v j=$jobs 'NR % j == k' /tmp/seedlist.$$ | while read d; do
       p=$(basename $(dirname $d)); name=$(basename $d)
-      git -C $wt checkout -q -- .
+      git -C $wt checkout -q -- . ; git -C $wt clean -fdq -- src libs tests examples
       if ! git -C $wt apply "$VROOT/$d/patch.diff" 2>/dev/null; then echo "$p/$name: PATCH-DOES-NOT-APPLY"; continue; fi
       out=$(VERIF_REPO=$wt ./check $p --tier $tier 2>&1); rc=$?
-      git -C $wt checkout -q -- .
+      git -C $wt checkout -q -- . ; git -C $wt clean -fdq -- src libs tests examples
       if [ $rc -eq 0 ]; then echo "$p/$name: MISSED"
       elif echo "$out" | grep -q '^VIOLATION.*replay=[^ ]*$'; then echo "$p/$name: CAUGHT"
       else echo "$p/$name: CAUGHT-WITHOUT-INPUT"; fi
